@@ -34,7 +34,7 @@ BUDGET_S = {"quick": 300, "thorough": 3000}
 
 
 def streams(ctx):
-    return [("audit", ctx.scale(32, 400))]
+    return [("audit", ctx.scale(64, 500))]
 
 
 def run_case(ctx, P, stream, idx):
